@@ -1358,6 +1358,9 @@ void SPxSolverBase<R>::setType(Type tp)
          if(this->matrixIsSetup)
             SPxBasisBase<R>::loadMatrixVecs();
 
+         random = base.random;
+         dualDegenSum = base.dualDegenSum;
+
          assert(!freePricer || thepricer != nullptr);
          assert(!freeRatioTester || theratiotester != nullptr);
          assert(!freeStarter || thestarter != nullptr);
